@@ -1,2 +1,3 @@
 import SrModel.Proto
 import SrModel.Adaptive
+import SrModel.Thermal
